@@ -69,9 +69,9 @@ func (g *genState) letter(l int, v int) Step {
 	case 9:
 		return Step{Op: "frame", F: "startbad", ID: g.fresh(), Variant: v}
 	case 10:
-		return Step{Op: "frame", F: "stop", ID: g.lastSubID()}
+		return Step{Op: "frame", F: "stop", ID: g.lastSubID(), Variant: v}
 	case 11:
-		return Step{Op: "frame", F: "stop", ID: 9}
+		return Step{Op: "frame", F: "stop", ID: 9, Variant: v}
 	case 12:
 		return Step{Op: "frame", F: "ping", Variant: v}
 	case 13:
@@ -95,7 +95,7 @@ var endings = []string{"cclose", "drop", "sclose"}
 // build turns a letter sequence into a session. lockstep: a quiescence point after every step.
 func build(r *hx.Rand, proto string, pre []int, seq []int, lockstep bool) Session {
 	g := &genState{}
-	s := Session{Proto: proto, Ending: hx.Pick(r, endings), Await: r.Chance(5, 6)}
+	s := Session{Proto: proto, Ending: hx.Pick(r, endings), Await: r.Chance(5, 6), IDSet: r.Intn(len(idSetNames))}
 	for _, l := range append(append([]int{}, pre...), seq...) {
 		s.Steps = append(s.Steps, g.letter(l, r.Intn(24)))
 		if lockstep && l != 17 {
@@ -131,7 +131,7 @@ type choice struct {
 
 func randomSession(r *hx.Rand, maxLen int) Session {
 	proto := hx.Pick(r, []string{"ws", "tws"})
-	s := Session{Proto: proto, Ending: hx.Pick(r, endings), Await: r.Chance(4, 5)}
+	s := Session{Proto: proto, Ending: hx.Pick(r, endings), Await: r.Chance(4, 5), IDSet: r.Intn(len(idSetNames))}
 	s.SlowStop = s.Ending == "sclose" && r.Bool()
 	g := &genState{}
 	pSync := hx.Pick(r, []int{0, 0, 1, 3, 10}) // out of 10
@@ -183,10 +183,10 @@ func randomSession(r *hx.Rand, maxLen int) Session {
 	for i := 0; i < n; i++ {
 		cs := []choice{
 			{10, func() { add(g.start(pool(), hx.Pick(r, []string{"query", "query", "mutation", "invalid", "subfail"}), r.Intn(24))) }},
-			{12, func() { add(g.start(pool(), "subscription", 0)) }},
+			{12, func() { add(g.start(pool(), "subscription", r.Intn(24))) }},
 			{5, func() { add(g.start(subID(), hx.Pick(r, []string{"subscription", "subscription", "query", "subfail"}), r.Intn(24))) }},
-			{10, func() { add(Step{Op: "frame", F: "stop", ID: subID()}) }},
-			{2, func() { add(Step{Op: "frame", F: "stop", ID: hx.Pick(r, []int{9, 0, 5})}) }},
+			{10, func() { add(Step{Op: "frame", F: "stop", ID: subID(), Variant: r.Intn(24)}) }},
+			{2, func() { add(Step{Op: "frame", F: "stop", ID: hx.Pick(r, []int{9, 0, 5}), Variant: r.Intn(24)}) }},
 			{22, func() {
 				if g := anySub(); g >= 0 {
 					add(Step{Op: "ev", Src: g})
@@ -237,10 +237,10 @@ func min(a, b int) int {
 
 // manySubs: more live subscriptions than the send buffer holds when the connection ends.
 func manySubs(r *hx.Rand, n int) Session {
-	s := Session{Proto: hx.Pick(r, []string{"ws", "tws"}), Ending: hx.Pick(r, endings), Await: true}
+	s := Session{Proto: hx.Pick(r, []string{"ws", "tws"}), Ending: hx.Pick(r, endings), Await: true, IDSet: r.Intn(len(idSetNames))}
 	s.Steps = append(s.Steps, Step{Op: "frame", F: "init-ok"})
 	for i := 0; i < n; i++ {
-		s.Steps = append(s.Steps, Step{Op: "frame", F: "start", ID: 10 + i, Kind: "subscription"})
+		s.Steps = append(s.Steps, Step{Op: "frame", F: "start", ID: 10 + i, Kind: "subscription", Variant: r.Intn(4)})
 	}
 	s.Steps = append(s.Steps, Step{Op: "sync"})
 	if r.Bool() {
@@ -251,7 +251,7 @@ func manySubs(r *hx.Rand, n int) Session {
 
 // burst: many operations without waiting, then the connection goes away under them.
 func burst(r *hx.Rand, n int) Session {
-	s := Session{Proto: hx.Pick(r, []string{"ws", "tws"}), Ending: hx.Pick(r, []string{"drop", "drop", "cclose", "sclose"}), Await: true}
+	s := Session{Proto: hx.Pick(r, []string{"ws", "tws"}), Ending: hx.Pick(r, []string{"drop", "drop", "cclose", "sclose"}), Await: true, IDSet: r.Intn(len(idSetNames))}
 	s.Steps = append(s.Steps, Step{Op: "frame", F: "init-ok"})
 	for i := 0; i < n; i++ {
 		k := hx.Pick(r, []string{"query", "query", "mutation", "subscription", "invalid"})
@@ -267,7 +267,7 @@ func burst(r *hx.Rand, n int) Session {
 // connection is ended while stalled.
 func slowReader(r *hx.Rand, k int) Session {
 	proto := []string{"tws", "ws"}[k%2]
-	s := Session{Proto: proto, Ending: endings[(k/3)%3], Await: true}
+	s := Session{Proto: proto, Ending: endings[(k/3)%3], Await: true, IDSet: r.Intn(len(idSetNames))}
 	s.SlowStop = s.Ending == "sclose" && r.Bool()
 	add := func(st ...Step) { s.Steps = append(s.Steps, st...) }
 	add(Step{Op: "frame", F: "init-ok"}, Step{Op: "frame", F: "start", ID: 1, Kind: "subscription", Big: 256})
